@@ -88,7 +88,7 @@ class Center:
 
         if hasattr(res, "form") and hasattr(res, "copy"):
             # the offset is a StateVector: use the point it represents, not its raw element values
-            res = res.copy(form="cartesian")
+            res = res.copy(form="cartesian", frame=getattr(self, "offset_frame", None))
 
         return self.orientation.convert_to(date, orientation) @ res
 
